@@ -26,6 +26,8 @@ def elements(ids, variant):
     el = [w['node'], w['comp'], w['ports'][0], w['swports'][0]]
     if variant == 2:       # delegations written on the stitching elements themselves (uplink port, switch service)
         return [w['node'], w['swports'][0], ids['uplink'], ids['switch'][1]]
+    if variant == 3:       # a second switch joined to the uplink by two parallel links
+        return [w['node'], w['swports'][0], ids['sw2']['port'], ids['sw2']['node']]
     if variant >= 1:
         el += [ids['facility']['port'], ids['sw2']['port']]
     return el
@@ -42,7 +44,8 @@ def eval_vector(case):
     variant, choice = case[0], tuple(case[1])
     v = []
     world.reset_all()
-    t, ids = build_site('A', workers=2 if variant == 1 else 1, facility=variant == 1, second_switch=variant == 1)
+    t, ids = build_site('A', workers=2 if variant == 1 else 1, facility=variant == 1, second_switch=variant in (1, 3),
+                        parallel=variant == 3)
     arm = t.as_arm()
     els = elements(ids, variant)
     ctx = f'[variant {variant} assignment {dict(zip([e.split("-", 1)[1] for e in els], choice))}]'
@@ -218,13 +221,15 @@ def run(report):
         cases = [(0, c) for c in itertools.product(MENU_Q, repeat=4)]
         cases += [(1, c) for c in itertools.product(('none', 'LC@d1', 'LC@d2'), repeat=6)]
         cases += [(2, c) for c in itertools.product(MENU_T, repeat=4)]
+        cases += [(3, c) for c in itertools.product(('none', 'LC@d1', 'LC@d2', 'L@d1,C@d2'), repeat=4)]
     else:
         cases = [(0, c) for c in itertools.product(tuple(menu('x')), repeat=4)]
+        cases += [(3, c) for c in itertools.product(MENU_T, repeat=4)]
         cases += [(2, c) for c in itertools.product(tuple(menu('x')), repeat=4)]
         cases += [(1, c) for c in itertools.product(MENU_T, repeat=6)]
     g = explore_cases(report, 'vectors', eval_vector, cases, chunk=16,
                       rule='substrate model (worker with NIC, stitch switch + service + ports, patch links; variant 1 adds a second '
-                           'worker, a facility and an inter-switch link; variant 2 puts delegations on the stitching port and service) x EVERY vector of per-element delegation choices over the '
+                           'worker, a facility and an inter-switch link; variant 2 puts delegations on the stitching port and service; variant 3 joins a second switch to the uplink by two parallel links) x EVERY vector of per-element delegation choices over the '
                            'delegable elements (none, label-only, capacity-only, both, other id, mixed ids, two ids on one node, pool '
                            'definition, pool reference); each returned model judged on 7 clauses from raw snapshots')
     explore_cases(report, 'reload', eval_reload,
